@@ -509,6 +509,8 @@ pub fn run_case(env: &Env, c: &Case, scope: Scope) -> CaseResult {
     rep.class_if(argv.iter().any(|a| a.len() == gen::MAX_ARG as usize), "longest-possible-argument");
     rep.class_if(argv.len() == 1, "argv0-only");
     rep.class_if(argv.len() >= 31, "many-arguments");
+    rep.class_if(argv.len() >= 256, "256-or-more-arguments");
+    rep.class_if(envp.iter().any(|e| e.len() >= 4096), "environment-entry-of-a-page-or-more");
     rep.nontrivial_if(ext || pre || dup || non_utf8_arg);
     rep.distinct_key = Some(hash_of(&(&c.argv, &c.envp, &c.keys)));
 
